@@ -1463,7 +1463,8 @@ class SMTFormula(Formula):
         ]
 
         formula = state["formula"].decode("utf-8")
-        formula = formula.replace(r"\"", r"\"")
+        # smt_expr_to_str escapes quotes as \" (ISLa syntax); SMT-LIB uses "".
+        formula = formula.replace(r"\"", '""')
         z3_constr = z3.parse_smt2_string(
             f"(assert {formula})",
             decls={
